@@ -266,7 +266,8 @@ func checkC14(r *Result) {
 				}
 			}
 		}
-		r.check(n == 2 && one && incd, "WITHDRAW-ID", "(x/bridge/keeper.Keeper).IncrementWithdrawalId # first id 1, then previous + 1", P.Pos(inc.Pos()), fmt.Sprintf("%d writes; starts at 1: %v; increments by 1: %v", n, one, incd))
+		// two writes (one per branch) or one write after the branches merged: either way both values are stored
+		r.check((n == 2 || n == 1) && one && incd, "WITHDRAW-ID", "(x/bridge/keeper.Keeper).IncrementWithdrawalId # first id 1, then previous + 1", P.Pos(inc.Pos()), fmt.Sprintf("%d writes; starts at 1: %v; increments by 1: %v", n, one, incd))
 		var ws []string
 		for _, s := range P.Sites(descIs("coll:x/bridge/keeper.Keeper.WithdrawalId.Set")) {
 			ws = append(ws, FuncName(TopFunc(s.Fn)))
